@@ -251,6 +251,7 @@ func rule044(r *core.Run) {
 	name := fname(r, fn)
 	var seek, skip *ssa.Call
 	skipNotMarker := ""
+	nSeek, otherSeek := 0, ""
 	core.Instrs(fn, func(in ssa.Instruction) {
 		c, ok := in.(*ssa.Call)
 		if !ok {
@@ -258,7 +259,13 @@ func rule044(r *core.Run) {
 		}
 		switch r.P.CalleeName(c) {
 		case "goskipiter.(*Iterator).Seek":
-			seek = c
+			if seek == nil || isLoadOf(r, core.Forward(stripIface(c.Call.Args[1])), "gofakes3.ListBucketPage.Marker") {
+				seek = c
+			}
+			nSeek++
+			if !isLoadOf(r, core.Forward(stripIface(c.Call.Args[1])), "gofakes3.ListBucketPage.Marker") {
+				otherSeek = pos(r, c)
+			}
 		case "goskipiter.(*Iterator).Next":
 			// the skip: a Next call guarded by Key() == page.Marker
 			for _, g := range core.GuardsOf(c) {
@@ -282,13 +289,6 @@ func rule044(r *core.Run) {
 	if seek != nil {
 		s := r.P.SliceOf(seek.Call.Args[1], core.SliceOpts{Depth: -1})
 		okSeek = s.Has("field:gofakes3.ListBucketPage.Marker")
-		for _, g := range core.GuardsOf(seek) {
-			gs := r.P.SliceOf(g.If.Cond, core.SliceOpts{Depth: -1})
-			cd := core.CondOf(g.If.Cond)
-			if !(gs.Has("field:gofakes3.ListBucketPage.Marker") && cd.Op == token.NEQ && g.Branch != cd.Neg) && !strings.Contains(gs.LeafList("field:")[0], "buckets") {
-				// other guards (bucket lookup) are fine
-			}
-		}
 	}
 	p0 := r.P.Pos(fn.Pos())
 	if seek != nil {
@@ -317,6 +317,8 @@ func rule044(r *core.Run) {
 		}
 	}
 	r.Check(skip != nil && seek != nil && core.Reaches(seek, skip), "R04.4", key(name, "marker entry skipped"), p0, "the entry equal to the marker is skipped once", "the entry equal to the marker is not skipped: the last key of a page is repeated on the next page")
+	r.Check(otherSeek == "", "R04.4", key(name, "the iterator is repositioned only to the marker"), p0, sprintf("%d Seek call(s), each to page.Marker itself", nSeek),
+		"the iterator is also repositioned to a computed position (Seek at "+otherSeek+"): keys between the position the loop had reached and the computed one are never examined — unless every one of them provably belongs to what is skipped, which no rule here can establish for a string successor")
 	r.Check(skipNotMarker == "", "R04.4", key(name, "only the marker itself is skipped"), p0, "the skipped entry is compared with page.Marker",
 		"the entry that is skipped after seeking is compared with a start position that is not the marker itself (at "+skipNotMarker+"): when the listing starts at the prefix, a live key equal to the prefix is dropped")
 	// the listing loop uses the same iterator
